@@ -96,6 +96,17 @@ Definition consumed (dlimit : option Z) (ts : list tok) : Z :=
 Definition within_limit (limit : option Z) (n : Z) : bool :=
   match limit with Some L => n <=? L | None => true end.
 
+(* query.cc parse_query_term counts its own calls (term_count) and refuses the call that exceeds
+   MAX_TERMS.  It is called once for every term, once for every `(` (which then parses the group),
+   once more at the end of every group (the call that meets `)` or the end of the query and pushes
+   it back), and not for `and` / `or` / `not`, which the operator loops consume themselves.
+   For k plain terms inside d nested parentheses - `( ( ... t1 t2 .. tk ... ) )` - that is
+   2 d + k + 1 calls.  The nesting bound is tested when a `(` is met, after the count. *)
+Definition query_term_calls (d k : Z) : Z := 2 * d + k + 1.
+
+Definition query_accept (dlimit tlimit : option Z) (d k : Z) : bool :=
+  within_limit dlimit d && within_limit tlimit (query_term_calls d k).
+
 (* n opening parentheses, a terminal, n closing ones *)
 Definition nest (n : nat) : list tok := repeat TLp n ++ TVal :: repeat TRp n.
 
